@@ -146,7 +146,12 @@ fn decode_c11(r: &mut Rd) -> props::c11::StepCase {
             0 | 1 => Op::Edges(k / 8 % 12 + 1),
             2 | 3 | 4 => Op::AsmStep,
             5 => Op::KeyInt,
-            6 => Op::Continue,
+            6 => match k / 8 % 4 {
+                0 => Op::CpuReset,
+                1 => Op::MasterReset,
+                2 => Op::Reload,
+                _ => Op::Continue,
+            },
             _ => Op::Input(k / 8 % 4, r.u8()),
         });
     }
